@@ -3,4 +3,5 @@ TARGETS = {
     'handoff': dict(cfg='fib', src=['harness/handoff.cpp'], cflags=f'-O1 -g1 {ASAN}', libs='-lrapidcheck'),
     'atomic-fib': dict(cfg='fib', src=['harness/atomic.cpp'], cflags=f'-O0 -g1 {ASAN} {UBSAN}', libs='-lrapidcheck'),
     'atomic-thr': dict(cfg='thr', src=['harness/atomic.cpp'], cflags=f'-O0 -g1 {ASAN} {UBSAN}', libs='-lrapidcheck'),
+    'stdlocks': dict(cfg='fib', src=['harness/stdlocks.cpp'], cflags=f'-O1 -g1 {ASAN}', libs='-lrapidcheck'),
 }
